@@ -32,4 +32,16 @@ NOTES = {
   "note": "Trusted: measured layouts (size_of/offset_of!/pointer differences) as inputs; little-endian target; Lean kernel; harness. rustc's layout algorithm itself is not modelled — the theorem holds for every layout.",
   "technique": "Lean 4 theorem (mutual structural induction, memory relation) + differential correspondence incl. direct bulk-vs-single oracle",
  },
+ "C03": {
+  "text": "A later definition carries its history in its attributes; Lean theorems show (a) the documented edit steps — add a field anywhere, remove with Removed/AbiRemoved, convert with savefile_versions_as, append variants — leave the grammar of every earlier version unchanged (variants: as a prefix), at any position and under nesting, hence through any history; (b) if the old program's grammar is extended by the new definition's grammar for that version (a decidable relation evaluated for every zoo family on every run), old bytes load as fill of the saved wire value with exact consumption; (c) what fill does per field (retained / removed without disturbing neighbours / default / conversion). Families of real definitions (one module per version, compiled against the real derive) are saved with version i and loaded with version j for all i ≤ j and compared with the model.",
+  "design_ref": "§6 C03",
+  "note": "User conversion functions and defaults are parameters of the model (their values are computed by the harness from the same expressions the derive uses). Trusted: Lean kernel, harness, zoo generator.",
+  "technique": "Lean 4 theorems (edit-step invariance, extension relation, round trip) + cross-module differential correspondence",
+ },
+ "C18": {
+  "text": "Symmetric to C03 for the writer: Lean theorems show that field addition and AbiRemoved removal leave the writer's grammar of every older version unchanged, that an alive AbiRemoved field is written as its constructed value, later fields are omitted, absent variants and plain Removed fields are refused, that the bytes written at version k are read by the definition current at k when the extension relation holds (evaluated per family), and that the packed path is only taken at versions where all gated fields are present, where memory equals the encoding (C04). Every family is written at every older version by the newest definition and read by the definition of that version, against the model.",
+  "design_ref": "§6 C18",
+  "note": "Value constructors are parameters. Histories outside the property's quantifier (type conversion, plain Removed) are exercised but only compared with the model, not required to load.",
+  "technique": "Lean 4 theorems (writer-side step invariance, extension relation, packed gate) + cross-module differential correspondence",
+ },
 }
